@@ -336,3 +336,119 @@ func NewRunnerOn(p *Program, o RunOpts, d *simdisk.Disk, f *txfile.File, m *MSta
 	r.curMax = uint(f.VerifState().MaxPages)
 	return r
 }
+
+// CheckFaultCrashImages enumerates the crash images of a history that was executed under an
+// I/O fault plan (r must have been run with Faults and TrackCommits), from log position `from`
+// onwards. A crash image must show, completely, the state of the last commit that returned nil,
+// of a commit in progress, or of a commit attempt since then whose only failing calls were syncs
+// (a failed sync leaves the writes in the page cache; they may or may not be durable).
+func CheckFaultCrashImages(r *Runner, cp CrashParams, st *CrashStats, from int) (v *Violation) {
+	log := r.Disk.Log()
+	ps := int(r.P.Cfg.PageSize)
+	rnd := NewRand(cp.Seed)
+	o := simdisk.EnumOpts{PageSize: ps, HeaderSize: txfile.VerifHeaderSize, MaxFull: cp.MaxFull, Random: cp.Random, TornCuts: cp.TornCuts}
+	if from < r.CreatedIdx {
+		from = r.CreatedIdx
+	}
+	imgNo := 0
+	simdisk.Enumerate(log, from, o, rnd, func(spec simdisk.CrashSpec, pend []simdisk.PendOp, img []byte) {
+		if v != nil || (cp.MaxImages > 0 && imgNo >= cp.MaxImages) {
+			return
+		}
+		last := crashState{txid: r.InitTxID, state: NewMState()}
+		var maybes []crashState
+		var cands []crashState
+		for i := range r.Commits {
+			c := &r.Commits[i]
+			switch {
+			case c.BeginIdx >= spec.K:
+			case c.OK && c.EndIdx < spec.K:
+				last = crashState{txid: c.TxID, state: c.State}
+				maybes = nil
+			case c.OK: // in progress
+				cands = append(cands, crashState{txid: c.TxID, state: c.State})
+			case c.MaybeState != nil: // failed by syncs only (finished or in progress)
+				maybes = append(maybes, crashState{txid: c.TxID, state: c.MaybeState})
+			}
+		}
+		cands = append(append([]crashState{last}, maybes...), cands...)
+		if spec.TornAt >= 0 {
+			p := pend[spec.TornAt]
+			if int(p.Off)+txfile.VerifHeaderSize <= len(img) && ParseHeader(img[p.Off:]).Valid {
+				mixed := string(img[p.Off : int(p.Off)+txfile.VerifHeaderSize])
+				if mixed != string(p.Data) && mixed != string(spec.TornOld) {
+					return
+				}
+			}
+		}
+		imgNo++
+		st.Images++
+		if len(maybes) > 0 {
+			st.InWindow++
+		}
+		v = checkFaultImage(img, cands, len(maybes) > 0, spec, st)
+	})
+	return v
+}
+
+func checkFaultImage(img []byte, cands []crashState, maybe bool, spec simdisk.CrashSpec, st *CrashStats) (v *Violation) {
+	// history pattern of known finding F16: the header of a commit attempt that failed (by syncs only) may be in the file
+	clause := func(c string) string {
+		if maybe {
+			return "failed-commit-header-exposed"
+		}
+		return c
+	}
+	var f *txfile.File
+	defer func() {
+		if x := recover(); x != nil {
+			v = violationf(clause("fault-crash-panic"), spec.K, "crash image {%s} of a history with I/O failures: panic while recovering: %v at %s", spec.String(), x, panicSite(debug.Stack()))
+			if f != nil {
+				func() {
+					defer func() { recover() }()
+					f.Close()
+				}()
+			}
+		}
+	}()
+	d := simdisk.FromImage("fault-crash", img)
+	d.SetRecord(false)
+	var err error
+	f, err = txfile.VerifOpen(d, txfile.Options{})
+	if err != nil {
+		return violationf(clause("fault-crash-open"), spec.K, "crash image {%s} of a history with I/O failures: open failed: %v", spec.String(), err)
+	}
+	defer f.Close()
+	snap := f.VerifState()
+	var first *Violation
+	tried := 0
+	for _, c := range cands {
+		if c.txid != snap.TxID {
+			continue
+		}
+		tried++
+		vv := VerifyAgainst(f, c.state, spec.K)
+		if vv == nil {
+			vv = CheckPartition(&snap, c.state, spec.K, false)
+		}
+		if vv == nil {
+			if c.txid != cands[0].txid || c.state != cands[0].state {
+				st.RecoveredTo["other"]++
+			}
+			return nil
+		}
+		if first == nil {
+			first = vv
+		}
+	}
+	if tried == 0 {
+		var ids []uint64
+		for _, c := range cands {
+			ids = append(ids, c.txid)
+		}
+		return violationf(clause("fault-crash-state"), spec.K, "crash image {%s} of a history with I/O failures: recovered header txid %d, allowed states have txid %v", spec.String(), snap.TxID, ids)
+	}
+	first.Msg = fmt.Sprintf("crash image {%s} of a history with I/O failures, recovered txid %d matches %d allowed state(s) by txid but none completely: %s", spec.String(), snap.TxID, tried, first.Msg)
+	first.Clause = clause("fault-crash-" + first.Clause)
+	return first
+}
